@@ -131,11 +131,19 @@ func runC14(c *Ctx) {
 		}
 	}
 	if php := c.fn("netutil", "ParseHostPort"); php != nil {
-		for _, ret := range core.Returns(php) {
-			al, ok := ret.Results[0].(*ssa.Alloc)
-			if !ok {
-				continue
+		// every HostPort built here takes both fields from SplitHostPort(addr):
+		// a second producer (an IP fast path, a canonicalising parser) returns
+		// a different spelling of the host than the one String() wrote
+		nhp := 0
+		core.EachInstr(php, func(in ssa.Instruction) {
+			al, ok := in.(*ssa.Alloc)
+			if !ok || core.NamedOf(al.Type()) != "HostPort" {
+				return
 			}
+			if _, isStruct := al.Type().Underlying().(*types.Pointer).Elem().Underlying().(*types.Struct); !isStruct {
+				return
+			}
+			nhp++
 			okMap := true
 			nst := 0
 			for _, r := range core.Refs(al) {
@@ -161,12 +169,15 @@ func runC14(c *Ctx) {
 					ex, ok := src.(*ssa.Extract)
 					if !ok || ex.Index != want {
 						okMap = false
-					} else if cl, ok := ex.Tuple.(*ssa.Call); !ok || core.CalleeName(&cl.Call) != core.ModPath+"/netutil.SplitHostPort" {
+					} else if cl, ok := ex.Tuple.(*ssa.Call); !ok || core.CalleeName(&cl.Call) != core.ModPath+"/netutil.SplitHostPort" || cl.Call.Args[0] != ssa.Value(php.Params[0]) {
 						okMap = false
 					}
 				}
 			}
-			c.check(okMap && nst == 2, "C14.hostport.tables", php, "&HostPort{Host: host, Port: port} from SplitHostPort", ret, "field mapping")
+			c.check(okMap && nst == 2, "C14.hostport.tables", php, "&HostPort{Host: host, Port: port} from SplitHostPort(addr)", al, "the host text is returned as written, never re-rendered")
+		})
+		if nhp == 0 {
+			c.undecided("C14.hostport.tables", php, "construction of the result", nil, "no HostPort composite literal found")
 		}
 	}
 	if hs := c.fn("netutil", "HostPort.String"); hs != nil {
